@@ -10,7 +10,7 @@ PROP = "C08"
 
 TIERS = {
     # streams, runs per stream, real generate_loopy every k-th run
-    "quick": {"streams": 48, "runs": 220, "codegen_every": 11, "budget_s": None},
+    "quick": {"streams": 64, "runs": 450, "codegen_every": 9, "budget_s": None},
     "thorough": {"streams": 4000, "runs": 300, "codegen_every": 3,
                  "budget_s": 20 * 60},
 }
